@@ -101,6 +101,9 @@ class RandomProjection(GaussianRandomProjection, InvertibleBasis, MatrixMixin):
     @property
     def n_basis_modes(self):
         """Number of basis modes."""
+        # With "auto" the number of modes is only known once fitted
+        if self._n_basis_modes == "auto" and hasattr(self, "n_components_"):
+            return self.n_components_
         return self._n_basis_modes
 
     @n_basis_modes.setter
